@@ -507,13 +507,16 @@ def _analyse_exec(run: Any, ea: ExecAnalysis, retire_probe: bool, aborted: bool,
     n_blocks = 0
     sel_tag = ["selection"] if ex.selected is not None else []
 
-    def ready_nodes() -> List[str]:
+    def ready_nodes(possible: bool = False) -> List[str]:
+        """Definitely ready in the scheduler's view (default), or -- possible=True -- the over-approximation: every
+        dependency has finished in ground truth, whether or not a wait has reported it to the scheduler yet."""
         out_ = []
         for m in in_graph:
             if m in dispatched or m in retired:
                 continue
             if m in expected_deact and not retire_probe:
-                continue
+                if not possible:
+                    continue
             ok = True
             for d in deps.get(m, ()):
                 if d not in in_graph:
@@ -521,6 +524,8 @@ def _analyse_exec(run: Any, ea: ExecAnalysis, retire_probe: bool, aborted: bool,
                 if d in observed:
                     continue
                 if retire_probe and d in retired and d not in all_entered:
+                    continue
+                if possible and (d in exit_seq or d in retired or d in expected_deact):
                     continue
                 ok = False
                 break
@@ -595,6 +600,12 @@ def _analyse_exec(run: Any, ea: ExecAnalysis, retire_probe: bool, aborted: bool,
                 if ex.is_async:
                     V.append(viol("loop_runs_node", f"{a['res']} node {nid} ran on the event-loop thread {part}: the loop cannot serve "
                                   f"other coroutines meanwhile", op=opkey, tok=tok))
+            # C04.a (ground truth): pooled node functions running at the same instant
+            if a["res"] != "main_thread":
+                n_run = 1 + sum(1 for x in inside if x in attrs and attrs[x]["res"] != "main_thread")
+                if n_run > mc:
+                    V.append(viol("maxconc", f"{n_run} pooled node functions running at the same instant, max_concurrency={mc}",
+                                  op=opkey, tok=tok, seq=seq, tags=["running"]))
             # C05
             if a["seq"] and inside:
                 V.append(viol("seq_enter", f"sequential node {nid} entered while {sorted(inside)} still running", op=opkey, tok=tok, seq=seq))
@@ -656,7 +667,7 @@ def _analyse_exec(run: Any, ea: ExecAnalysis, retire_probe: bool, aborted: bool,
             saved = set(observed)
             observed.update(hyp)
             inflight = [n for n in dispatched if n not in observed and n in attrs and attrs[n]["res"] != "main_thread"]
-            v = idle_condition(inflight, ready_nodes(), attrs, cp, mc)
+            v = idle_condition(inflight, ready_nodes(), attrs, cp, mc, ready_nodes(True))
             observed.clear()
             observed.update(saved)
             if v is not None:
@@ -675,7 +686,7 @@ def _analyse_exec(run: Any, ea: ExecAnalysis, retire_probe: bool, aborted: bool,
                 episode_kinds = sorted({attrs[n]["res"] for n in inflight})
             if blocked:
                 n_blocks += 1
-                v = idle_condition(inflight, ready_nodes(), attrs, cp, mc)
+                v = idle_condition(inflight, ready_nodes(), attrs, cp, mc, ready_nodes(True))
                 if v is not None:
                     unobs = sorted(n for n in dispatched if n in exit_seq and n not in observed and attrs.get(n, {}).get("res") != "main_thread")
                     V.append(viol("idle", f"scheduler blocks in {kind} wait with {len(inflight)}/{mc} in flight and ready node(s) {v}; "
@@ -715,8 +726,14 @@ def _analyse_exec(run: Any, ea: ExecAnalysis, retire_probe: bool, aborted: bool,
     return V
 
 
-def idle_condition(inflight: List[str], ready: List[str], attrs: Dict[str, dict], cp: Dict[str, int], mc: int) -> Optional[List[str]]:
-    """None when blocking is justified, else the ready nodes that could have been started."""
+def idle_condition(inflight: List[str], ready: List[str], attrs: Dict[str, dict], cp: Dict[str, int], mc: int,
+                   possibly_ready: Optional[List[str]] = None) -> Optional[List[str]]:
+    """None when blocking is justified, else the ready nodes that could have been started.
+
+    `inflight` over-approximates what the scheduler believes is in flight and `ready` under-approximates what it knows
+    to be ready.  The sequential-candidate excuse must be judged on an OVER-approximation of the ready set
+    (`possibly_ready`: dependencies finished in ground truth): the scheduler may have learnt about a completion through a
+    channel the seams did not see, and then a sequential node may rightfully be its best candidate."""
     if not ready:
         return None
     if len(inflight) >= mc:
@@ -724,7 +741,8 @@ def idle_condition(inflight: List[str], ready: List[str], attrs: Dict[str, dict]
     if any(attrs[n]["seq"] for n in inflight):
         return None
     best = max(cp[m] for m in ready)
-    if inflight and any(attrs[m]["seq"] for m in ready if cp[m] == best):
+    cands = set(ready) | set(possibly_ready or ())
+    if inflight and any(attrs[m]["seq"] for m in cands if cp[m] >= best):
         return None
     return sorted(ready)
 
